@@ -24,6 +24,7 @@ type opRec struct {
 	Flag   bool     `json:"flag,omitempty"`   // immut: consume; others: run through a compiled script
 	Name   string   `json:"name,omitempty"`   // export: module source; builtin: module name
 	Hidden bool     `json:"hidden,omitempty"` // the pushed handle is a private temporary
+	Watch  bool     `json:"watch,omitempty"`  // freeze: the argument is a private tree (nothing else refers into it): deep watch on the result
 }
 
 func (o opRec) String() string {
@@ -42,6 +43,9 @@ func (o opRec) String() string {
 	}
 	if o.Flag {
 		s += " !"
+	}
+	if o.Watch {
+		s += " (private)"
 	}
 	if o.Name != "" {
 		s += " " + strings.ReplaceAll(o.Name, "\n", "; ")
@@ -495,6 +499,10 @@ func (m *machine) exec(op opRec) bool {
 		}
 	}
 	m.afterOp(op, n0)
+	if op.K == "freeze" && op.Watch && len(m.regs) > n0 {
+		m.private[op.A[0]] = true
+		m.addWatch(len(m.regs)-1, true, "freeze(private tree)")
+	}
 	return true
 }
 
@@ -842,6 +850,7 @@ func (m *machine) doImport(op opRec) bool {
 	mods := tengo.NewModuleMap()
 	if op.K == "export" {
 		mods.AddSourceModule("m", []byte(op.Name))
+		mods.AddSourceModule("inner", []byte(innerModule))
 	} else {
 		bm := stdlib.GetModuleMap(op.Name).GetBuiltinModule(op.Name)
 		if bm == nil {
